@@ -13,11 +13,11 @@ Quick == Cfg.size = "quick"
 MCKinds == Range(Cfg.kinds)
 MCGrepo == Range(Cfg.grepo)
 
-FileScenarios == Range(JsonDeserialize(IOEnv.VT_SCEN))
+\* (TLC re-evaluates JsonDeserialize at every use: the scenarios are read once, in Init)
+FileScenarios == JsonDeserialize(IOEnv.VT_SCEN)
 FileDevs      == Range(JsonDeserialize(IOEnv.VT_DEVS))
-AllDevSets    == SUBSET FileDevs          \* every subset of the listed clauses
-NoDevSets     == {{}}                     \* documented semantics only
-OnlyDevSets   == {FileDevs}               \* vacuity runs: exactly the given clauses
+ForceOn       == TRUE
+ForceOff      == FALSE
 
 Ord     == <<"a", "b", "c", "d", "z">>
 NameOrd == <<"ua", "ub", "uc", "ud", "uz", "s", "k">>
@@ -58,14 +58,14 @@ Mk(files, imports, glob, v, kind, grepo, declared, flt, session, pad, ind) ==
       declared |-> declared, fault |-> flt, session |-> session]
 
 Const(F, v) == [f \in F |-> v]
-Choices(F, star) == {OrdSeq(S) : S \in SUBSET F} \cup (IF star THEN {<<"*">>} ELSE {})
+ImpChoices(F, star) == {OrdSeq(S) : S \in SUBSET F} \cup (IF star THEN {<<"*">>} ELSE {})
 StarOk(kind) == kind \in {"plain_uri", "fqn_uri", "rrel"}
 
 \* import graphs over the files F (main "a")
 Graphs(F, kind, full) ==
   IF GlobKind(kind) THEN {Const(F, <<>>)}
-  ELSE IF full THEN [F -> Choices(F, StarOk(kind))]
-  ELSE {g \in [F -> Choices(F, FALSE)] : \A f \in F \ {"a"} : f \notin Range(g[f])}
+  ELSE IF full THEN [F -> ImpChoices(F, StarOk(kind))]
+  ELSE {g \in [F -> ImpChoices(F, FALSE)] : \A f \in F \ {"a"} : f \notin Range(g[f])}
 
 Globs(files, kind) ==
   IF GlobKind(kind) /\ Len(files) > 1 THEN {files, Tail(files)} ELSE {files}
